@@ -103,7 +103,7 @@ def build(S: Sources) -> Unit:
                        harnesses=[KaniHarness("verif_c17_util::slice_ptr_index_roundtrip", "complete", covers="util::slice_ptr_index"),
                                   _real()],
                        stubs_note=["std::hash::RandomState::new -> zero keys (thread pool construction for the BenchContext handed to Bencher::new)"]),
-              E.entry_kani("C17", only={"arg_label_to_value", "arg_labels_reordered_all_kept"})],
+              E.entry_kani("C17", only={"arg_label_to_value"})],
         undecided_clauses=[
             "BenchArgs::runner for argument types other than &str (the ToString / Debug rendering path through arg_to_string, String / Box<str> / Cow<str> reuse, slices and ranges as iterators)",
             "the macro-generated closure itself (proc macro); consts and types named by a label (generic entries)",
